@@ -20,8 +20,12 @@ RULE = ('every DAG shape over {Config of Base/Mid/Leaf/Other classes, Config '
         'and of a function, list, dict, tuple} up to N nodes x fn_or_cls in '
         '{Base, Mid, Leaf, Other, node} x match_subclasses x buildable_type in '
         '{Buildable, Config, Partial} x {iterate, get, set, replace(deepcopy), '
-        'replace(no deepcopy), replace(value equal to a matching node)}; tag '
-        'selections over three tags on tagged variants; non-trivial when the '
+        'replace(no deepcopy), replace(value equal to a matching node), '
+        'set with two keywords the first of which cuts off / adds matching '
+        'nodes, re-iteration and set through a kept selection object after '
+        'update_callable on each node}; tag '
+        'selections over three tags on two tagged variants (one tag per '
+        'argument; several tags below the selected one per argument); non-trivial when the '
         'selection is non-empty and not everything')
 ASSUMPTIONS = [
     'replace on a selection that matches the root must raise (documented)',
@@ -108,7 +112,15 @@ def make(shape, tagged=False):
   if _KK is None:
     _KK = kinds()
   objs = shapes.materialize(shape, _KK, ['L1'])
-  if tagged:
+  if tagged == 2:
+    # arguments carrying several tags below the selected one
+    for i, o in enumerate(objs):
+      if isinstance(o, fdl.Buildable):
+        fdl.set_tags(o, 'x', {N.TagA, N.TagB, N.TagD} if i % 2 == 0 else
+                     {N.TagB, N.TagD})
+        fdl.set_tags(o, 'y', {N.TagC, N.TagB} if i % 2 == 0 else
+                     {N.TagC, N.TagA})
+  elif tagged:
     for i, o in enumerate(objs):
       if isinstance(o, fdl.Buildable):
         fdl.add_tag(o, 'x', N.TagA if i % 2 == 0 else N.TagB)
@@ -238,6 +250,63 @@ def check_node_selection(shape, tname, sub, bname, res):
     res.violation('C15/set-wrong-nodes',
                   f'{case}: after set {cfg!r} expected {twin!r}', case)
     return
+  # ---- set with several keywords, the first of which changes what is
+  # reachable: exactly the nodes selected when set() was called get both
+  for vname in ('none', 'matching-config'):
+    cfg = make(shape)
+    twin = make(shape)
+    if vname == 'none':
+      v1 = v1t = None
+    else:
+      v1 = fdl.Config(target, y='PASSED')
+      v1t = fdl.Config(target, y='PASSED')
+      if not match(v1):
+        continue
+    for n in [n for n in buildables(twin) if match(n)]:
+      n.x = v1t
+      n.y = 'SET2'
+    try:
+      selectors.select(cfg, target, **sel_kw).set(x=v1, y='SET2')
+    except Exception as e:  # pylint: disable=broad-except
+      res.violation('C15/set-raises', f'{case}: set(x={v1!r}, y=..): {e!r}',
+                    case)
+      return
+    res.transitions += 1
+    if canon.canon_cfg(cfg) != canon.canon_cfg(twin):
+      res.violation(f'C15/set-wrong-nodes/two-keywords/{vname}',
+                    f'{case}: after set(x={v1!r}, y="SET2") {cfg!r} expected '
+                    f'{twin!r}', case)
+      return
+  # ---- a selection object that is kept while the configuration changes
+  # re-evaluates its matches: after update_callable on one node, iterating
+  # the same object again gives the matching set of the changed graph
+  nb = len(buildables(make(shape))) if sub else 0
+  for i in range(nb):
+    cfg = make(shape)
+    sel = selectors.select(cfg, target, **sel_kw)
+    first = list(sel)
+    node = buildables(cfg)[i]
+    newc = N.node_b if match(node) else target
+    try:
+      fdl.update_callable(node, newc)
+    except Exception:  # pylint: disable=broad-except
+      continue
+    exp2 = [n for n in buildables(cfg) if match(n)]
+    got2 = list(sel)
+    res.transitions += 1
+    if sorted(map(id, got2)) != sorted(map(id, exp2)):
+      res.violation(
+          'C15/iterate-wrong-set/kept-selection-after-update_callable',
+          f'{case}: node {i} -> {newc.__name__}: selected {got2!r} expected '
+          f'{exp2!r}', case)
+      return
+    allb2 = buildables(cfg)
+    sel.set(y='AFTER')
+    if sorted(id(n) for n in allb2 if n.__arguments__.get(
+        'y') == 'AFTER') != sorted(map(id, exp2)):
+      res.violation('C15/set-wrong-nodes/kept-selection-after-update_callable',
+                    f'{case}: node {i} -> {newc.__name__}: {cfg!r}', case)
+      return
   # ---- replace
   for mode in ('deepcopy', 'identity', 'equal_value'):
     cfg = make(shape)
@@ -332,8 +401,14 @@ def _all_refs_are(root, match, v):
 
 def check_tag_selection(shape, res):
   for tname, tag in TAGS.items():
-    cfg = make(shape, tagged=True)
-    case = {'shape': shape, 'tag': tname}
+    for tagged in (True, 2):
+      _check_tag_selection(shape, res, tname, tag, tagged)
+
+
+def _check_tag_selection(shape, res, tname, tag, tagged):
+  for _ in (0,):
+    cfg = make(shape, tagged=tagged)
+    case = {'shape': shape, 'tag': tname, 'tagging': int(tagged)}
     exp = []
     for n in buildables(cfg):
       params = n.__signature_info__.signature.parameters
@@ -358,7 +433,7 @@ def check_tag_selection(shape, res):
       continue
     res.outcomes[f'tag:{tname}:{min(len(exp), 3)}'] += 1
     # replace through the tag selection
-    twin = make(shape, tagged=True)
+    twin = make(shape, tagged=tagged)
     for n in buildables(twin):
       for arg, tags in n.__argument_tags__.items():
         if any(issubclass(t, tag) for t in tags):
